@@ -4,8 +4,18 @@
    NOTE: the relation of C18_canon_unique is value_eqs (no list upgrade), not Equal's value_eq:
    a primitive list and the equivalent struct list are value_eq but have different canonical forms.
    [T2] (the Go-faithful model computes canon of the denoted value) is proved by a heap-level
-   induction for every value: C18_canon_m_correct, its three consequences, and the capability
-   case (C18_canon_m_cap_error). *)
+   induction for every VALUE: C18_canon_m_correct, its consequences, and the capability case
+   (C18_canon_m_cap_error).
+   PREMISE of every [T2] theorem, load-bearing: the struct handed to Canonicalize has a data section
+   of whole words, [DataSize (p_size s) mod 8 = 0] -- true for every struct the reader hands out and
+   for struct-list elements, FALSE for List.Struct(i) of a 1-, 2- or 4-byte list.  For those the code
+   as found returned the empty struct (defect S1, found by the independent review, repo fix 0fb41d1);
+   see C18_canon_subword_refuted and C18_canonicalize2_aligned at the end.  For the repaired code on
+   such structs there is no general theorem, only the three computed instances and the run.
+   What the model theorems do NOT say: when an error is returned instead of bytes; that the library
+   READER reads the output back as an equal value (value preservation is stated with the
+   specification's strict decoder cdecode; the read-back value of the 'idempotence' corollary is a
+   hypothesis). *)
 From CV Require Import Value.ValueEq Value.CanonSpec Value.CanonProofs Value.CanonProofs2 Value.CanonProofs3
                        Value.EqualM Value.CanonM Value.EqualProofs Value.CanonMProofs Value.CanonMStruct Value.CanonMWords Value.CanonMData Value.CanonMHeap Value.CanonMLoop Value.CanonMInd Value.CanonMTop Value.CanonMListC Value.CanonMBlocks Value.Den.
 From CV Require Import Core.ReaderFacts Core.SafetyProofs Core.ArithFacts.
@@ -228,7 +238,16 @@ Theorem C18_elem_size_list : forall m, msg_ok m -> forall p vs,
 Proof. exact elem_size_list. Qed.
 Print Assumptions C18_elem_size_list.
 
-(* the three claims about Canonicalize itself, unconditional *)
+(* consequences for Canonicalize.  Exactly what they say:
+   - layout_independent: two struct pointers denoting value_eqs values (first one capability-free):
+     same bytes whenever both calls return bytes;
+   - value_preserved: the returned bytes decode, with the SPECIFICATION's strict pre-order decoder
+     cdecode (CanonSpec.v; not the library reader model), to a value value_eqs / value_eq to v;
+     [good v] (well-formed, fields in range, no capability) is a hypothesis, not derived from den;
+   - idempotent_given_readback: if a second message's struct denotes a value value_eqs to v (as the
+     output read back would, which is NOT proved: no lemma links cdecode to den on the output bytes;
+     the run checks it, flags R and I), canonicalising it gives the same bytes.  This is layout
+     independence instantiated, not idempotence by itself. *)
 Theorem C18_canon_m_layout_independent : forall fuel c fx m1 rl1 s1 v1 m2 rl2 s2 v2 bs1 bs2 r1 r2,
   all_cfixed fx -> cfg_strict c = true -> msg_ok m1 -> msg_ok m2 -> wf_ptr m1 s1 -> wf_ptr m2 s2 ->
   (p_valid s1 = true -> p_kind s1 = KStruct /\ DataSize (p_size s1) mod 8 = 0) ->
@@ -249,7 +268,7 @@ Theorem C18_canon_m_value_preserved : forall fuel c fx m rl s v bs r,
 Proof. exact canon_m_value_preserved. Qed.
 Print Assumptions C18_canon_m_value_preserved.
 
-Theorem C18_canon_m_idempotent : forall fuel c fx m rl s v bs r m' rl' s' v' bs' r',
+Theorem C18_canon_m_idempotent_given_readback : forall fuel c fx m rl s v bs r m' rl' s' v' bs' r',
   all_cfixed fx -> cfg_strict c = true -> msg_ok m -> msg_ok m' -> wf_ptr m s -> wf_ptr m' s' ->
   (p_valid s = true -> p_kind s = KStruct /\ DataSize (p_size s) mod 8 = 0) ->
   (p_valid s' = true -> p_kind s' = KStruct /\ DataSize (p_size s') mod 8 = 0) ->
@@ -258,8 +277,8 @@ Theorem C18_canon_m_idempotent : forall fuel c fx m rl s v bs r m' rl' s' v' bs'
   den true m' 0 [] s' v' -> value_eqs v v' = true ->
   canonicalize c fx fuel m' rl' s' = (KOk bs', r') ->
   bs' = bs.
-Proof. exact canon_m_idempotent. Qed.
-Print Assumptions C18_canon_m_idempotent.
+Proof. exact canon_m_idempotent_given_readback. Qed.
+Print Assumptions C18_canon_m_idempotent_given_readback.
 
 (* F04, the code as found: panic on a data-only struct list at the end of a cap == len
    segment, wrong bytes otherwise; the repaired model returns the specification's bytes *)
@@ -282,3 +301,35 @@ Theorem C18_canon_bitpad_prefix_refuted :
                  /\ run_canon 30 cfg0 repaired (msg_bits 5) SelRoot = KOk bs).
 Proof. exact canon_bitpad_prefix_refuted. Qed.
 Print Assumptions C18_canon_bitpad_prefix_refuted.
+
+(* S1: sub-word data sections (List.Struct(i) of a 1/2/4-byte list as the struct to canonicalise).
+   canonicalize2 b = Canonicalize with the repair switch b (true = repo commit 0fb41d1);
+   canonicalize = the code as found.  On the premise of the theorems above they coincide: *)
+Theorem C18_canonicalize2_aligned : forall c fx b fuel m rl s,
+  (p_valid s = true -> DataSize (p_size s) mod 8 = 0) ->
+  canonicalize2 c fx b fuel m rl s = canonicalize c fx fuel m rl s.
+Proof. exact canonicalize2_aligned. Qed.
+Print Assumptions C18_canonicalize2_aligned.
+
+Theorem C18_canon_m_correct2 : forall fuel c fx m rl s v bs rl',
+  all_cfixed fx -> cfg_strict c = true -> msg_ok m -> wf_ptr m s ->
+  (p_valid s = true -> p_kind s = KStruct /\ DataSize (p_size s) mod 8 = 0) ->
+  den true m 0 [] s v ->
+  canonicalize2 c fx true fuel m rl s = (KOk bs, rl') -> canon v = Some bs.
+Proof. exact canon_m_correct2. Qed.
+Print Assumptions C18_canon_m_correct2.
+
+(* outside the premise, three computed instances (element of a byte list, of a 2-byte list, of a
+   4-byte list): every other hypothesis of C18_canon_m_correct holds; as found the empty struct
+   comes out, which is not the canonical form of the denoted value (the unrestricted statement is
+   REFUTED for the code as found); repaired, the bytes are canon of the denoted value *)
+Theorem C18_canon_subword_refuted :
+  forall i j, (i, j) = (0, 1) \/ (i, j) = (1, 0) \/ (i, j) = (2, 0) ->
+  let e := member_sub i j in
+  wf_ptr msg_sub e /\ p_valid e = true /\ p_kind e = KStruct /\ DataSize (p_size e) mod 8 <> 0 /\
+  exists v bs, den true msg_sub 0 [] e v /\ canon v = Some bs /\
+    fst (canonicalize2 cfg0 repaired false 20 msg_sub 1000000 e) = KOk [252; 255; 255; 255; 0; 0; 0; 0] /\
+    bs <> [252; 255; 255; 255; 0; 0; 0; 0] /\
+    fst (canonicalize2 cfg0 repaired true 20 msg_sub 1000000 e) = KOk bs.
+Proof. exact canon_subword_refuted. Qed.
+Print Assumptions C18_canon_subword_refuted.
